@@ -273,8 +273,16 @@ theorem obsE_ext (G : List (Nat × Entry)) (f : Forest) (t : Nat) (q : Path) (dd
   rw [this]
   exact ho
 
-/-- **The frame across module sets, on the stages of `processAll`.** -/
-theorem frame_core (hno : NoAugments B) {plug : Plug} (hplug : PlugAgree plug B X) (opts : Opts)
+/-- The two runs agree before the deviation stage: the forest of the run with the new modules is the
+forest of the run without them plus trees of new modules. -/
+def PreDevAgree (B X : Registry) (ds : List Mod) (opts : Opts) (plug : Plug) : Prop :=
+  ∃ G, NewTrees ds G ∧ (preDev X opts plug).forest = ext G (preDev B opts plug).forest
+
+/-- **The frame across module sets from the deviation stage on**: whatever the earlier stages are
+like, if they end in forests that agree on the trees of `B`, the results agree outside the targets
+of the new modules' deviations. -/
+theorem frame_core_of_preDev {plug : Plug} (hplug : PlugAgree plug B X) (opts : Opts)
+    (hpre : PreDevAgree B X ds opts plug)
     (hX : (processAll X opts plug).errors = []) (hB : (processAll B opts plug).errors = [])
     (t : Nat) (q : Path) (dd : EData) (ho : obsE (processAll B opts plug).forest t q = some dd)
     (hq : ∀ loc ∈ newTargets B X opts plug, ¬ (loc.1 = t ∧ loc.2 <+: q)) :
@@ -283,7 +291,7 @@ theorem frame_core (hno : NoAugments B) {plug : Plug} (hplug : PlugAgree plug B 
   obtain ⟨_, _, _, _, hfB⟩ := Tree.processAll_clean B opts plug hB
   rw [hfX, devStage_eq, keyOrder_ext h, List.foldl_append]
   rw [hfB, devStage_eq] at ho
-  obtain ⟨G, hG, hpre⟩ := preDev_ext h hno hplug opts
+  obtain ⟨G, hG, hpre⟩ := hpre
   have hbase := stageFold_ext h hG opts (envOf X opts plug) (envOf B opts plug) (entryFuel X) (entryFuel B) (keyOrder B)
     (fun m hm => Bridge.keyOrder_mem B m hm) (fun m hm => devsOf_runs h hplug opts m (Bridge.keyOrder_mem B m hm))
     (preDev B opts plug).forest [] []
@@ -293,6 +301,14 @@ theorem frame_core (hno : NoAugments B) {plug : Plug} (hplug : PlugAgree plug B 
   rw [hdrop, hpre, hbase] at hq
   rw [hpre, hbase]
   exact stage_frame X opts (envOf X opts plug) (entryFuel X) t q dd (newOrder X dk) _ (obsE_ext G _ t q dd ho) hq
+
+/-- **The frame across module sets, on the stages of `processAll`.** -/
+theorem frame_core (hno : NoAugments B) {plug : Plug} (hplug : PlugAgree plug B X) (opts : Opts)
+    (hX : (processAll X opts plug).errors = []) (hB : (processAll B opts plug).errors = [])
+    (t : Nat) (q : Path) (dd : EData) (ho : obsE (processAll B opts plug).forest t q = some dd)
+    (hq : ∀ loc ∈ newTargets B X opts plug, ¬ (loc.1 = t ∧ loc.2 <+: q)) :
+    obsE (processAll X opts plug).forest t q = some dd :=
+  frame_core_of_preDev h hplug opts (preDev_ext h hno hplug opts) hX hB t q dd ho hq
 
 end
 
